@@ -428,7 +428,7 @@ impl Prop for C16 {
     }
 
     fn sanitize(case: &mut Case) {
-        if let Case::Sparse { universe, capacity, multiset, .. } = case {
+        if let Case::Sparse { universe, capacity, .. } = case {
             *capacity %= 80;
             // an empty builder spends universe/2 bits on buckets: keep byte-decoded cases cheap
             if *capacity == 0 && *universe > (1 << 16) {
